@@ -284,6 +284,35 @@ def run(ctx):
         for sig, detail in sc.apply_ctor(w0, op):
             ctx.violation(sig, {"scenario": "bytes", "init": "empty",
                                 "history": [], "op": op, "detail": detail})
+    # growth amounts around powers of two (chunked padding), once
+    import gtirb as g
+
+    n_big = 0
+    amounts = sorted({(1 << k) + d for k in range(0, 23, 1) for d in (-1, 0, 1)}
+                     | {3 << 20, (1 << 21) + (1 << 20)})
+    for base in (0, 1, 8):
+        for amt in amounts:
+            if amt <= 0:
+                continue
+            n_big += 1
+            bi = g.ByteInterval(size=1 << 26, contents=b"\x01" * base)
+            bi.initialized_size = base + amt
+            ok = (bi.initialized_size == base + amt
+                  and len(bi.contents) == base + amt
+                  and bytes(bi.contents[:base]) == b"\x01" * base
+                  and not any(bi.contents[base:]))
+            bi.initialized_size = base
+            ok = ok and bytes(bi.contents) == b"\x01" * base
+            if not ok:
+                ctx.violation("C19/initialized_size-large-growth",
+                              {"scenario": "bytes", "init": "empty",
+                               "history": [], "op": None,
+                               "detail": "%d stored bytes, initialized_size = "
+                               "%d + %d" % (base, base, amt)})
+                break
+    cov["large_growth_cases"] = n_big
+    cov["transitions"] += n_big
+    cov["traces_validated_against_impl"] += n_big
     cov["constructor_cases"] = n_ctor
     cov["transitions"] += n_ctor
     cov["traces_validated_against_impl"] += n_ctor
